@@ -1871,3 +1871,24 @@ def b_isnan(run, x):
 @callm(math.isinf)
 def b_isinf(run, x):
     return mk_bool(run, z3.fpIsInf(_to_fp(run, x)))
+
+
+# ====================================================================== datetime / timedelta (dependency: mostly opaque)
+import datetime as _dt  # noqa: E402
+
+
+def _dt_eq(kind):
+    def m(run, self, other):
+        fam = _dt.datetime if issubclass(self.cls, _dt.datetime) else _dt.timedelta
+        if not (hasattr(other, "cls") and isinstance(other.cls, type) and issubclass(other.cls, fam)):
+            return NOTIMPL
+        if self is other:
+            return mk_bool(run, kind == "eq")
+        raise Unsupported("comparison of opaque datetime/timedelta values")
+    return m
+
+
+for _K in (_dt.datetime, _dt.timedelta):
+    METHODS[(_K, "__eq__")] = _dt_eq("eq")
+    METHODS[(_K, "__ne__")] = _dt_eq("ne")
+    METHODS[(_K, "__hash__")] = lambda run, self: VInt(int, run.fresh_int("hv_hash"))
